@@ -44,7 +44,7 @@ Lemma proj_mat_scaled_rows pops p : pop_ok p ->
   length (proj_mat_scaled pops p) = (p_nseq p + 1)%nat /\ rows_sum (proj_mat_scaled pops p) (p_nsub p + 1) (pe_tot pops).
 Proof.
   intros (V & E1 & E2 & Hs & HF). destruct (proj_matrix_rows _ _ _ Hs E1 HF) as [L R].
-  unfold proj_mat_scaled. split; [now rewrite map_length|].
+  unfold proj_mat_scaled, proj_mat_scaled_v. split; [now rewrite map_length|].
   intros row Hr. apply in_map_iff in Hr. destruct Hr as (r0 & <- & Hr0). destruct (R r0 Hr0) as (L0 & _ & S0).
   split; [now rewrite map_length|].
   rewrite <- (map_id r0) at 1. rewrite map_map.
@@ -64,7 +64,7 @@ Lemma apply_pop_total d pops ax p x : (ax < d)%nat -> pop_ok p -> axis_le d ax (
   /\ axis_le d ax (p_nsub p + 1) (apply_pop d pops ax p x)
   /\ forall ax' n, ax' <> ax -> axis_le d ax' n x -> axis_le d ax' n (apply_pop d pops ax p x).
 Proof.
-  intros Hax Hp Hx. unfold apply_pop.
+  intros Hax Hp Hx. unfold apply_pop, apply_pop_v. change (proj_mat_scaled_v (pe_tot pops) p) with (proj_mat_scaled pops p).
   destruct (proj_mat_scaled_rows pops p Hp) as [LP RP]. destruct (heterr_mat_rows p Hp) as [LH RH].
   split; [|split].
   - rewrite (tapply_total d ax _ _ 1) by (auto; rewrite LH; apply axis_le_tapply_same, Hax).
@@ -109,22 +109,26 @@ Section Total.
     == qpow (pe_tot pops) d * ttotal d (analytic0 d pops thr model)
        + ttotal d (tmapi d (fun idx m => if use_sim pops thr idx then m else 0) [] model).
   Proof.
-    intros Hsh. unfold lowpass, add_sims. rewrite (tfoldi_add_total d (use_sim pops thr) sim Hsim).
+    intros Hsh.
+    change (lowpass d pops thr sim model)
+      with (tfoldi d (fun idx m acc => if use_sim pops thr idx then tadd d acc (tscale d m (sim idx)) else acc) [] model
+                   (apply_all d pops (analytic0 d pops thr model))).
+    rewrite (tfoldi_add_total d (use_sim pops thr) sim Hsim).
     unfold apply_all. rewrite apply_all_total; [rewrite Hd; reflexivity | lia | exact Hok |].
-    intros k p Hk. cbn [Nat.add]. unfold analytic0. apply axis_le_tmapi. apply Hsh, Hk.
+    intros k p Hk. cbn [Nat.add]. unfold analytic0, analytic0_v. apply axis_le_tmapi. apply Hsh, Hk.
   Qed.
 
   Theorem corrected_total_le model : shape_le d pops model -> tall d (fun m => 0 <= m) model ->
     ttotal d (lowpass d pops thr sim model) <= ttotal d model.
   Proof.
-    intros Hsh Hnn. rewrite lowpass_total by exact Hsh. unfold analytic0.
+    intros Hsh Hnn. rewrite lowpass_total by exact Hsh. unfold analytic0, analytic0_v, use_sim.
     rewrite tmapi_total_lin. rewrite <- (tmapi_total_id d [] model).
     apply tmapi_total_le; [|exact Hnn]. intros idx m Hm.
     pose proof (pnc_at_unit pops idx Hok) as Hp. pose proof (pe_tot_unit pops Hok) as He.
     pose proof (qpow_nonneg (pe_tot pops) d (proj1 He)) as Q0. pose proof (qpow_le1 (pe_tot pops) d He) as Q1.
-    destruct (use_sim pops thr idx).
+    unfold pnc_at in Hp. destruct (use_sim_v thr (pnc_vecs pops) idx).
     - lra.
-    - set (c := qpow (pe_tot pops) d) in *. set (w := pnc_at pops idx) in *.
+    - set (c := qpow (pe_tot pops) d) in *. set (w := prod_at (pnc_vecs pops) idx) in *.
       assert (0 <= m * (1 - w)) by (apply Qmult_le_0_compat; lra).
       assert (m * (1 - w) <= m) by nra. nra.
   Qed.
